@@ -235,6 +235,18 @@ def check_case(cell, case, ctx):
             return
     else:
         comps = [expr]
+    derived = []
+    if op.result == "vec":
+        # the accessors of a symbolic result are part of the API too: a vector returned by one operation is the operand
+        # of the next (phi of a scaled vector, eta of a rotated one, tau of a boosted one ...)
+        derived = ["x", "y", "rho", "phi"] + (["z", "theta", "eta"] if rdim >= 3 else []) + (["t", "tau"] if rdim == 4 else [])
+        derived = [n for n in derived if n not in R.coord_names(sysr)]
+        try:
+            comps = comps + [getattr(expr, n) for n in derived]
+        except Exception as e:  # noqa: BLE001
+            fail("exception", f"an accessor of the symbolic result raised {type(e).__name__}: {e!s:.300}")
+            return
+    nstored = len(comps) - len(derived)
     try:
         funcs = [sympy.lambdify(allsyms, c, modules="mpmath") for c in comps]
     except Exception as e:  # noqa: BLE001
@@ -326,14 +338,29 @@ def check_case(cell, case, ctx):
                 ctx.exclude("result_outside_sympy_domain")
                 continue
             scale = R.scale_of(a, b, rst)
-            for k, (g, r) in enumerate(zip(got, rst)):
+            for k, (g, r) in enumerate(zip(got[:nstored], rst)):
                 if not opcheck.close(g, r, TOL_MP, scale) and not (R.coord_names(sysr)[k] == "phi" and R.angle_close(g, r, TOL_MP * scale)):
                     fail("value", f"component {R.coord_names(sysr)[k]} evaluates to {opcheck.fmt(g)} but the 60-digit backend gives "
                          f"{opcheck.fmt(r)}; a={opcheck.fmt(a)} b={opcheck.fmt(b) if b else None} scalars={ {k2: opcheck.fmt(v) if not isinstance(v, (dict, list, str)) else v for k2, v in s_ref.items()} }")
                     return
+            # a Python-float factor enters the expression as a 53-bit literal and SymPy folds it (1/1.25 -> 0.8): accessors
+            # computed from such folded constants agree to double precision only
+            tol_d = mpf("1e-13") if any(isinstance(v, float) for v in sargs.values()) else TOL_MP
+            for n, g in zip(derived, got[nstored:]):
+                try:
+                    r = getattr(ref, n)
+                except ZeroDivisionError:
+                    continue
+                if not obs.finite(r):
+                    continue
+                if not opcheck.close(g, r, tol_d, scale) and not (n == "phi" and R.angle_close(g, r, tol_d * scale)):
+                    fail("value", f"accessor .{n} of the symbolic result evaluates to {opcheck.fmt(g)} but the 60-digit backend gives "
+                         f"{opcheck.fmt(r)} for the same result; a={opcheck.fmt(a)} b={opcheck.fmt(b) if b else None} "
+                         f"scalars={ {k2: opcheck.fmt(v) if not isinstance(v, (dict, list, str)) else v for k2, v in s_ref.items()} }")
+                    return
             if ref64 is not None and p["a"]["stratum"] == "moderate" and _f64_consistent(obs.stored(ref64), rst, scale):
                 st64 = obs.stored(ref64)
-                for k, (g, r) in enumerate(zip(got, st64)):
+                for k, (g, r) in enumerate(zip(got[:nstored], st64)):
                     if obs.finite(r) and not opcheck.close(g, r, opcheck.F64_TOL, scale) and not R.angle_close(g, r, opcheck.F64_TOL * scale):
                         fail("value_f64", f"component {k} evaluates to {opcheck.fmt(g)} but the float64 backend gives {r!r}")
                         return
